@@ -207,9 +207,14 @@ def reader_obligations(rep, T, want_rules=("R1", "R2", "R3", "R5", "R7", "R8", "
             # R1 shape
             sig = ("shape", repr(rs.shape))
             groups.setdefault((code, suffix, "shape", repr(rs.shape), repr(exp_shape), where), []).append(v2)
-            # R1 kind
+            # R1 kind (an integer read from a Python 2 file may be the 'L'-suffixed long wrapper; a Python 3 integer is a plain int)
             exp_k = row["kind"]
-            groups.setdefault((code, suffix, "kind", rs.kind, exp_k, where), []).append(v2)
+            got_k = rs.kind
+            if exp_k == "int" and "py2-long" in got_k:
+                parts = set(got_k.split("|"))
+                parts = {("int" if v2 < (3, 0) else "py2-long (repr ends in 'L')") if p_ == "py2-long" else p_ for p_ in parts}
+                got_k = "|".join(sorted(parts))
+            groups.setdefault((code, suffix, "kind", got_k, exp_k, where), []).append(v2)
             # R2 formats
             for det, msg in rs.fmt_problems:
                 groups.setdefault((code, suffix, "fmt:" + det, msg, "width/endianness agree", where), []).append(v2)
